@@ -2,7 +2,7 @@
 import itertools
 import z3
 from vf.pyvc.lib import REG
-from spec.pattern_sem import show, read, matches
+from spec.pattern_sem import show, read, matches, matches_typed, tok
 from props import _patterns as PG
 from contracts import patterns as K
 
@@ -123,15 +123,28 @@ def run(chk):
     # ---- single-leaf substitutions in every rewrite context: two patterns that differ in one leaf and are reported equivalent must have the same meaning
     pool = PG.leaf_pool()
     def kin(l1, l2): return l1[1] == l2[1] or l1[2:] == l2[2:]            # same path, other test -- or same test, other path
-    leaf_pairs = [(l1, l2) for l1, l2 in itertools.combinations(pool, 2) if chk.tier == 'thorough' or kin(l1, l2)]
+    base_tests = set(PG.TESTS2[:8])
+    def quick_pair(l1, l2):        # quick tier: path confusions on the 8 numeric tests over all 9 paths; constant-kind confusions on one path
+        if l1[2:] in base_tests and l2[2:] in base_tests: return kin(l1, l2)
+        return l1[1] == l2[1] == PG.PA
+    leaf_pairs = [(l1, l2) for l1, l2 in itertools.combinations(pool, 2) if (chk.tier == 'thorough' and kin(l1, l2)) or quick_pair(l1, l2)]
 
     def local_sig(t1, t2):
         paths = sorted(PG.paths_of(t1) | PG.paths_of(t2))
-        obs = [dict((p, v) for p, v in zip(paths, vals) if v is not None) for vals in itertools.product((None, 1, 2), repeat=len(paths))]
-        if len(obs) > 27: obs = obs[::len(obs) // 27 + 1] + [obs[-1]]
+        # value domain: absent, every constant of the two patterns (as typed tokens; timestamps by their instant), and one value none of them names
+        def canon_tok(l): return ('ts', l[1].replace('.000Z', 'Z')) if l[0] == 'ts' else tok(l)
+        vals_dom = [None] + sorted({canon_tok(c) for c in PG.constants_of(t1) | PG.constants_of(t2)}, key=repr) + [('num', 7.0)]
+        if len(vals_dom) > 5: vals_dom = vals_dom[:4] + [vals_dom[-1]]
+        obs = [dict((p, v) for p, v in zip(paths, vals) if v is not None) for vals in itertools.product(vals_dom, repeat=len(paths))]
+        if len(obs) > 40: obs = obs[::len(obs) // 40 + 1] + [obs[-1]]
         seqs2 = [[(0, o)] for o in obs] + [[(t0, a), (t1_, b)] for a in obs for b in obs for t0, t1_ in ((0, 1), (5, 0))] + [[(0, a), (1, a), (2, b)] for a in obs[:9] for b in obs[:9]]
+        def norm_ts(t):
+            if not isinstance(t, tuple): return t
+            if t and t[0] == 'ts': return ('ts', t[1].replace('.000Z', 'Z'))
+            return tuple(norm_ts(x) if isinstance(x, tuple) else x for x in t)
+        t1, t2 = norm_ts(t1), norm_ts(t2)
         for sq in seqs2:
-            if matches(t1, sq) != matches(t2, sq): return sq
+            if matches_typed(t1, sq) != matches_typed(t2, sq): return sq
         return None
 
     def subst_cases():
@@ -150,7 +163,7 @@ def run(chk):
                 return (f'sound#reported equivalent but semantics differ:{what} in {name}', f'{a} ~ {b} reported equivalent, but only one of them matches the observation sequence {w}', {'p': a, 'q': b})
     sc = list(subst_cases())
     chk.bounded('single-leaf substitutions in every rewrite context', sc, check_subst, classify=lambda c: (c[0], c[1][1] == c[2][1], c[1][2:], c[2][2:]),
-                bound=f'{len(leaf_pairs)} leaf pairs (9 paths incl. index 0/1 steps and continuations x 8 tests; ' + ('all pairs' if chk.tier == 'thorough' else 'same-path or same-test pairs') + f') x {len(PG.contexts())} contexts; meaning compared on all observation sequences of length <= 2 (and a length-3 subset) over the paths of the pair with values absent/1/2')
+                bound=f'{len(leaf_pairs)} leaf pairs (9 paths incl. index 0/1 steps and continuations x 19 tests over every constant kind; ' + ('same-path or same-test pairs' if chk.tier == 'thorough' else 'same-path or same-test pairs of the 8 numeric tests, all test pairs on one path') + f') x {len(PG.contexts())} contexts; meaning compared on all observation sequences of length <= 2 (and a length-3 subset) over the paths of the pair with values absent / each constant of the pair / another value (typed: a string never equals a hex or a number of the same text)')
 
     # ---- the generic sequence comparator against its specification (lexicographic three-way comparison), element values incl. falsy ones
     from stix2.equivalence.pattern.compare import iter_lex_cmp, generic_cmp
